@@ -97,7 +97,10 @@ func (rg *rootGeneratorSimple) generateIter() func(yield func(*Node, error) bool
 			stack.dfs(currentNode)
 		}
 
-		yield(root, rg.scanner.Err()) // 最後のブロックのrootを返却
+		// 最後のブロックのrootを返却 (empty or blank-only input has no root to return)
+		if err := rg.scanner.Err(); err != nil || root != nil {
+			yield(root, err)
+		}
 	}
 }
 
@@ -167,7 +170,7 @@ func (rg *rootGeneratorPipeline) worker(ctx context.Context, wg *sync.WaitGroup,
 					continue
 				}
 
-				if nodes == nil {
+				if root == nil {
 					errc <- errNilStack
 					return
 				}
@@ -177,6 +180,10 @@ func (rg *rootGeneratorPipeline) worker(ctx context.Context, wg *sync.WaitGroup,
 			if err := sc.Err(); err != nil {
 				errc <- err
 				return
+			}
+			if root == nil {
+				// blank-only block (e.g. blank lines before the first root)
+				continue
 			}
 			select {
 			case <-ctx.Done():
